@@ -208,6 +208,33 @@ pub fn run(ctx: Arc<Ctx>) {
 	probe.dedup();
 	let fac = pipeline::factory(vec![a.clone(), b.clone(), c.clone()], &work.0);
 	let m = |i: usize| format!("from_container filename=\"mem:{i}\"");
+	// vector-tile operations over sources with different coverages
+	{
+		let raw = crate::mvt::encode_tile(&super::c10::catalogue()[0].1);
+		let mk = |coords: &[Key]| -> TileMap { coords.iter().map(|k| (*k, raw.clone())).collect() };
+		let va = MemSource::new("va", mk(&[(3, 0, 0), (3, 2, 1), (9, 255, 255)]), TileFormat::PBF, TileCompression::Uncompressed);
+		let vb = MemSource::new("vb", mk(&[(3, 7, 7), (5, 17, 11), (9, 256, 256), (10, 700, 5)]), TileFormat::PBF, TileCompression::Uncompressed);
+		std::fs::write(work.0.join("c03.csv"), "data_id,v\nx,1\n").unwrap();
+		let mut vprobe: Vec<Key> = probe_for(&va.tiles);
+		vprobe.extend(probe_for(&vb.tiles));
+		vprobe.sort();
+		vprobe.dedup();
+		let vfac = pipeline::factory(vec![va, vb], &work.0);
+		for vpl in [
+			format!("from_vectortiles_merged [ {}, {} ]", m(0), m(1)),
+			format!("from_vectortiles_merged [ {} | filter_zoom max=3, {} | filter_zoom min=5 ]", m(1), m(0)),
+			format!("{} | vectortiles_update_properties data_source_path=\"c03.csv\" layer_name=\"a\" id_field_tiles=\"id\" id_field_data=\"data_id\"", m(1)),
+			format!("from_overlayed [ {} | filter_bbox bbox=[-180,-85,0,85], from_vectortiles_merged [ {}, {} ] ]", m(0), m(1), m(0)),
+		] {
+			match pipeline::build_op(&rt, &vfac, &vpl) {
+				Ok(op) => {
+					check_pyramid(&ctx, &rt, "pipeline", &vpl, &AnySrc::Op(op), &vprobe, false, json!({"vpl": vpl}));
+					ctx.trace(1);
+				}
+				Err(e) => ctx.violation("pipeline cannot be built", &format!("{vpl}: {e}"), json!({"vpl": vpl})),
+			}
+		}
+	}
 	for vpl in [
 		m(0),
 		format!("from_overlayed [ {}, {} ]", m(0), m(1)),
